@@ -148,96 +148,136 @@ theorem finalPaths_Tfin {cfg : Cfg} {p : Path} (h : p ∈ finalPaths cfg) : Tfin
 /-- every final file is complete and correct -/
 def FinOK (cfg : Cfg) (fs : FS) : Prop := ∀ p ∈ finalPaths cfg, fs.good p = true
 
-/-- all stages after `.params` (repaired code), right-nested -/
-def restStages (cfg : Cfg) (ord : List Path) (rs sk : Bool) : List Stage :=
-  rgStage cfg rs :: collectPre cfg rs sk :: (cfg.chrs.map (collectChr fixed cfg rs sk)
-    ++ (collectPost cfg sk :: constructPre cfg :: (cfg.chrs.map (constructChr fixed cfg rs)
+/-- all stages after `.params` (repaired code), right-nested; `skc` = no read collection in this run
+    (stage lock found by a resumed run, or `--read_assignments`) -/
+def restStages (cfg : Cfg) (ord : List Path) (rs skc : Bool) : List Stage :=
+  rgStage cfg rs :: collectPre cfg rs skc :: (cfg.chrs.map (collectChr fixed cfg rs skc)
+    ++ (collectPost cfg skc :: constructPre cfg :: (cfg.chrs.map (constructChr fixed cfg rs)
       ++ (dropStage fixed cfg :: mergeStage cfg true ::
-        (if cfg.keepTmp then [] else [cleanupLocks fixed cfg, globStage isSaveAux ord, globStage isRgAux ord])))))
+        (if cfg.keepTmp || cfg.fromSaves then []
+         else [cleanupLocks fixed cfg, globStage isSaveAux ord, globStage isRgAux ord])))))
 
 theorem stages_eq (cfg : Cfg) (ord : List Path) (rs sk : Bool) :
-    stages fixed cfg ord rs sk = paramsStage rs :: restStages cfg ord rs sk := by
+    stages fixed cfg ord rs sk = paramsStage rs :: restStages cfg ord rs (sk || cfg.fromSaves) := by
   simp [stages, restStages, fixed]
 
 /-- from a state satisfying the invariant, everything after `.params` completes, keeps the invariant at every
     prefix and leaves every final file complete and correct -/
 theorem rest_run {cfg : Cfg} (wf : WF cfg) (ord : List Path) (hord : ord.Nodup) (rs sk : Bool) {fs : FS} (h : J cfg fs)
     (hskrs : sk = true → rs = true) (hsk : sk = true → fs.has .lock = true)
-    (hnsk : sk = false → rs = true → fs.has .lock = false) :
-    Good cfg fs (runStages (restStages cfg ord rs sk) fs) ∧ FinOK cfg (runStages (restStages cfg ord rs sk) fs).fs := by
+    (hnsk : sk = false → cfg.fromSaves = false → rs = true → fs.has .lock = false)
+    (hsv : cfg.fromSaves = true → SavesOK cfg fs)
+    (hnp0 : cfg.fromSaves = true → rs = false → ∀ c ∈ cfg.chrs, fs.has (.processed c) = false) :
+    Good cfg fs (runStages (restStages cfg ord rs (sk || cfg.fromSaves)) fs) ∧
+      FinOK cfg (runStages (restStages cfg ord rs (sk || cfg.fromSaves)) fs).fs := by
   unfold restStages
+  generalize hskc : (sk || cfg.fromSaves) = skc
+  have hskc_f : skc = false → sk = false ∧ cfg.fromSaves = false := by
+    intro e; subst hskc; simpa using e
+  have hskc_t : skc = true → sk = true ∨ cfg.fromSaves = true := by
+    intro e; subst hskc; simpa using e
   -- read-group split
   obtain ⟨g1, rg1, f1⟩ := rg_stage wf rs h
   have j1 := good_J_acts g1
   refine seq_cons (Q := FinOK cfg) g1 ?_
   have hsk1 : sk = true → (runActs (rgStage cfg rs fs) fs).fs.has .lock = true := by
     intro e; rw [FS.has, f1 _ rfl]; exact hsk e
-  have hnsk1 : sk = false → rs = true → (runActs (rgStage cfg rs fs) fs).fs.has .lock = false := by
-    intro e e'; rw [FS.has, f1 _ rfl]; exact hnsk e e'
-  clear g1 f1 hsk hnsk h
+  have hnsk1 : sk = false → cfg.fromSaves = false → rs = true → (runActs (rgStage cfg rs fs) fs).fs.has .lock = false := by
+    intro e e' e''; rw [FS.has, f1 _ rfl]; exact hnsk e e' e''
+  have hsv1 : cfg.fromSaves = true → SavesOK cfg (runActs (rgStage cfg rs fs) fs).fs :=
+    fun e => savesOK_frame (hsv e) (f1 _ rfl) (fun _ => f1 _ rfl) (fun _ => f1 _ rfl)
+  have hnp1 : cfg.fromSaves = true → rs = false → ∀ c ∈ cfg.chrs,
+      (runActs (rgStage cfg rs fs) fs).fs.has (.processed c) = false := by
+    intro e e' c hc; rw [FS.has, f1 _ rfl]; exact hnp0 e e' c hc
+  clear g1 f1 hsk hnsk h hsv hnp0
   generalize (runActs (rgStage cfg rs fs) fs).fs = fs1 at *
   -- stale locks
-  obtain ⟨g2, f2, r2, e2, n2⟩ := collectPre_stage wf rs sk j1
+  obtain ⟨g2, f2, r2, e2, n2⟩ := collectPre_stage wf rs skc j1
   have j2 := good_J_acts g2
   refine seq_cons (Q := FinOK cfg) g2 ?_
-  have rg2 : (runActs (collectPre cfg rs sk fs1) fs1).fs.has .rgLock = true := by rw [FS.has, r2]; exact rg1
-  have hsk2 : sk = true → (runActs (collectPre cfg rs sk fs1) fs1).fs.has .lock = true := by
-    intro e; rw [e2 (by simp [e])]; exact hsk1 e
-  have hnl2 : sk = false → (runActs (collectPre cfg rs sk fs1) fs1).fs.has .lock = false := by
+  have rg2 : (runActs (collectPre cfg rs skc fs1) fs1).fs.has .rgLock = true := by rw [FS.has, r2]; exact rg1
+  have hsk2 : sk = true → (runActs (collectPre cfg rs skc fs1) fs1).fs.has .lock = true := by
+    intro e; rw [e2 (by subst hskc; simp [e])]; exact hsk1 e
+  have hnl2 : skc = false → (runActs (collectPre cfg rs skc fs1) fs1).fs.has .lock = false := by
     intro e
     by_cases hrs : rs = true
-    · rw [e2 (by simp [hrs])]; exact hnsk1 e hrs
+    · rw [e2 (by simp [hrs])]; exact hnsk1 (hskc_f e).1 (hskc_f e).2 hrs
     · have hrs' : rs = false := by simpa using hrs
       exact (n2 (by simp [e, hrs'])).1
-  have hnc2 : rs = false → ∀ c ∈ cfg.chrs, (runActs (collectPre cfg rs sk fs1) fs1).fs.has (.collected c) = false := by
+  have hnc2 : rs = false → skc = false → ∀ c ∈ cfg.chrs,
+      (runActs (collectPre cfg rs skc fs1) fs1).fs.has (.collected c) = false := by
+    intro e e' c hc
+    exact ((n2 (by simp [e, e'])).2 c hc).1
+  have hnp2 : rs = false → ∀ c ∈ cfg.chrs, (runActs (collectPre cfg rs skc fs1) fs1).fs.has (.processed c) = false := by
     intro e c hc
-    have hskf : sk = false := by cases hq : sk with | false => rfl | true => rw [hskrs hq] at e; exact absurd e (by simp)
-    exact ((n2 (by simp [e, hskf])).2 c hc).1
-  have hnp2 : rs = false → ∀ c ∈ cfg.chrs, (runActs (collectPre cfg rs sk fs1) fs1).fs.has (.processed c) = false := by
-    intro e c hc
-    have hskf : sk = false := by cases hq : sk with | false => rfl | true => rw [hskrs hq] at e; exact absurd e (by simp)
-    exact ((n2 (by simp [e, hskf])).2 c hc).2
-  clear g2 f2 r2 e2 n2 rg1 hsk1 hnsk1 j1
-  generalize (runActs (collectPre cfg rs sk fs1) fs1).fs = fs2 at *
+    by_cases hq : skc = true
+    · rcases hskc_t hq with hs | hf
+      · rw [hskrs hs] at e; exact absurd e (by simp)
+      · rw [e2 (by simp [hq])]; exact hnp1 hf e c hc
+    · have hq' : skc = false := by simpa using hq
+      exact ((n2 (by simp [e, hq'])).2 c hc).2
+  have hsv2 : cfg.fromSaves = true → SavesOK cfg (runActs (collectPre cfg rs skc fs1) fs1).fs := by
+    intro e; rw [e2 (by subst hskc; simp [e])]; exact hsv1 e
+  clear g2 f2 r2 e2 n2 rg1 hsk1 hnsk1 j1 hsv1 hnp1
+  generalize (runActs (collectPre cfg rs skc fs1) fs1).fs = fs2 at *
   -- collection per chromosome
-  obtain ⟨g3, p3, f3⟩ := collect_loop rs sk cfg.chrs (fun c hc => hc) wf.nd j2 rg2 hnl2 hnc2
+  obtain ⟨g3, p3, f3⟩ := collect_loop rs skc cfg.chrs (fun c hc => hc) wf.nd j2 rg2 hnl2 hnc2
   have j3 := good_J_stages g3
   refine seq_append (Q := FinOK cfg) g3 ?_
-  have hsk3 : sk = true → (runStages (cfg.chrs.map (collectChr fixed cfg rs sk)) fs2).fs.has .lock = true := by
+  have hsk3 : sk = true → (runStages (cfg.chrs.map (collectChr fixed cfg rs skc)) fs2).fs.has .lock = true := by
     intro e; rw [FS.has, f3 _ (fun _ _ => rfl)]; exact hsk2 e
-  have hnl3 : sk = false → (runStages (cfg.chrs.map (collectChr fixed cfg rs sk)) fs2).fs.has .lock = false := by
+  have hnl3 : skc = false → (runStages (cfg.chrs.map (collectChr fixed cfg rs skc)) fs2).fs.has .lock = false := by
     intro e; rw [FS.has, f3 _ (fun _ _ => rfl)]; exact hnl2 e
   have hnp3 : rs = false → ∀ c ∈ cfg.chrs,
-      (runStages (cfg.chrs.map (collectChr fixed cfg rs sk)) fs2).fs.has (.processed c) = false := by
+      (runStages (cfg.chrs.map (collectChr fixed cfg rs skc)) fs2).fs.has (.processed c) = false := by
     intro e c hc; rw [FS.has, f3 _ (fun _ _ => rfl)]; exact hnp2 e c hc
-  clear g3 f3 rg2 hsk2 hnl2 hnc2 hnp2 j2
-  generalize (runStages (cfg.chrs.map (collectChr fixed cfg rs sk)) fs2).fs = fs3 at *
+  have hsv3 : cfg.fromSaves = true → SavesOK cfg (runStages (cfg.chrs.map (collectChr fixed cfg rs skc)) fs2).fs := by
+    intro e
+    have hq : skc = true := by subst hskc; simp [e]
+    -- with no collection every per-chromosome stage is empty
+    have hsame : (runStages (cfg.chrs.map (collectChr fixed cfg rs skc)) fs2).fs = fs2 := by
+      subst hq
+      generalize cfg.chrs = cs
+      induction cs with
+      | nil => rfl
+      | cons c cs ih => simp only [List.map_cons, runStages, collectChr, if_true, runActs]; exact ih
+    rw [hsame]; exact hsv2 e
+  clear g3 f3 rg2 hsk2 hnl2 hnc2 hnp2 j2 hsv2
+  generalize (runStages (cfg.chrs.map (collectChr fixed cfg rs skc)) fs2).fs = fs3 at *
   -- multimappers, info, stage lock
-  obtain ⟨g4, l4, f4⟩ := collectPost_stage sk j3 hsk3 hnl3 p3
+  obtain ⟨g4, l4, e4, f4⟩ := collectPost_stage skc j3 hnl3 p3
   have j4 := good_J_acts g4
   refine seq_cons (Q := FinOK cfg) g4 ?_
-  have hnp4 : rs = false → ∀ c ∈ cfg.chrs, (runActs (collectPost cfg sk fs3) fs3).fs.has (.processed c) = false := by
+  have hnp4 : rs = false → ∀ c ∈ cfg.chrs, (runActs (collectPost cfg skc fs3) fs3).fs.has (.processed c) = false := by
     intro e c hc; rw [FS.has, f4 _ rfl]; exact hnp3 e c hc
-  clear g4 f4 hsk3 hnl3 hnp3 p3 j3
-  generalize (runActs (collectPost cfg sk fs3) fs3).fs = fs4 at *
+  have sv4 : SavesOK cfg (runActs (collectPost cfg skc fs3) fs3).fs := by
+    by_cases hq : skc = true
+    · rcases hskc_t hq with hs | hf
+      · apply savesOK_of_lock j4; rw [e4 hq]; exact hsk3 hs
+      · rw [e4 hq]; exact hsv3 hf
+    · have hq' : skc = false := by simpa using hq
+      exact savesOK_of_lock j4 (l4 hq')
+  clear g4 f4 hsk3 hnl3 hnp3 p3 j3 l4 e4 hsv3
+  generalize (runActs (collectPost cfg skc fs3) fs3).fs = fs4 at *
   -- final files opened
-  obtain ⟨g5, f5⟩ := constructPre_stage j4 l4
+  obtain ⟨g5, f5⟩ := constructPre_stage j4 sv4
   have j5 := good_J_acts g5
   refine seq_cons (Q := FinOK cfg) g5 ?_
-  have l5 : (runActs (constructPre cfg fs4) fs4).fs.has .lock = true := by rw [FS.has, f5 _ rfl]; exact l4
+  have sv5 : SavesOK cfg (runActs (constructPre cfg fs4) fs4).fs :=
+    savesOK_frame sv4 (f5 _ rfl) (fun _ => f5 _ rfl) (fun _ => f5 _ rfl)
   have hnp5 : rs = false → ∀ c ∈ cfg.chrs, (runActs (constructPre cfg fs4) fs4).fs.has (.processed c) = false := by
     intro e c hc; rw [FS.has, f5 _ rfl]; exact hnp4 e c hc
-  clear g5 f5 l4 hnp4 j4
+  clear g5 f5 sv4 hnp4 j4
   generalize (runActs (constructPre cfg fs4) fs4).fs = fs5 at *
   -- model construction per chromosome
-  obtain ⟨g6, p6, f6⟩ := construct_loop rs cfg.chrs (fun c hc => hc) wf.nd j5 l5 hnp5
+  obtain ⟨g6, p6, f6⟩ := construct_loop rs cfg.chrs (fun c hc => hc) wf.nd j5 sv5 hnp5
   have j6 := good_J_stages g6
   refine seq_append (Q := FinOK cfg) g6 ?_
   have hout6 : ∀ c ∈ cfg.chrs, ∀ d ∈ chrOutputs cfg c,
       (runStages (cfg.chrs.map (constructChr fixed cfg rs)) fs5).fs.good d = true := by
     intro c hc d hd
     exact j6.2 (.processed c) (p6 c hc) d (by simp only [guarded, hc, if_true]; exact hd)
-  clear g6 p6 f6 l5 hnp5 j5
+  clear g6 p6 f6 sv5 hnp5 j5
   generalize (runStages (cfg.chrs.map (constructChr fixed cfg rs)) fs5).fs = fs6 at *
   -- processed locks dropped
   obtain ⟨g7, n7, f7⟩ := drop_stage wf j6
@@ -258,7 +298,7 @@ theorem rest_run {cfg : Cfg} (wf : WF cfg) (ord : List Path) (hord : ord.Nodup) 
   clear g8 f8 hout7 n7 j7
   generalize (runActs (mergeStage cfg true fs7) fs7).fs = fs8 at *
   -- clean-up
-  cases hk : cfg.keepTmp with
+  cases hk : (cfg.keepTmp || cfg.fromSaves) with
   | true => exact ⟨⟨rfl, j8⟩, fin8⟩
   | false =>
     simp only [Bool.false_eq_true, if_false]
